@@ -9,7 +9,9 @@
 //   reset <fresh> <max_rx> <max_tx>        fresh=1: new object, 0: reset_pdu_buffer() on the used one; max_* = 0: default
 //   commit <len> <llid> <exact>            allocate_transmit_buffer (exact size or maximum), fill, commit_transmit_buffer
 //   read                                   next_received(); free_received() if there was a PDU
-//   x <out:lost|crc|mic|ok> <ch> <len> <llid>   connection event, central -> peripheral (ch=1: new data PDU if the central may choose)
+//   x <out:lost|crc|mic|ok|enc> <ch> <len> <llid>   connection event, central -> peripheral (ch=1: new data PDU if the
+//                                          central may choose); enc = CRC ok on an encrypted link: MIC ok iff the buffer's
+//                                          receive packet counter equals the packet counter of the PDU
 //   r <pout:lost|ok|nak>                   peripheral -> central
 //
 // Dispatch of the radio ISR (environment assumption "isr-dispatch", transcribed from
@@ -108,14 +110,16 @@ int run(const char* script, const char* trace) {
                 for (int i = 0; i < len; ++i) buf.buffer[2 + i] = pattern(p_next, i);
                 b->commit_transmit_buffer(buf);
             }
-            t.ev("commit").f("id", p_next).f("len", len).f("llid", llid).f("r", r).f("asz", (long long)asz).f("pending", b->pending_outgoing_data_available()).end();
+            t.ev("commit").f("id", p_next).f("len", len).f("llid", llid).f("r", r).f("asz", (long long)asz)
+             .f("pending", b->pending_outgoing_data_available()).f("rxhead", b->next_received().size != 0).end();
             if (r) ++p_next;
         }
         else if (c.op == "read") {
             const auto w = b->next_received();
             decoded d = {0, 0, 0, 1, 0, 0, true};
             if (w.size) { d = decode(w.buffer, w.size); b->free_received(); }
-            t.ev("read").f("id", d.id).f("len", d.len).f("llid", d.llid).f("ok", d.ok).end();
+            t.ev("read").f("id", d.id).f("len", d.len).f("llid", d.llid).f("ok", d.ok)
+             .f("pending", b->pending_outgoing_data_available()).f("rxhead", b->next_received().size != 0).end();
         }
         else if (c.op == "x") {
             std::string out = c.w.at(0);
@@ -133,6 +137,9 @@ int run(const char* script, const char* trace) {
                     out = "nobuf";
                     tr  = b->isr_next_transmit();
                 } else {
+                    // "enc": encrypted link, CRC ok; CCM: the MIC is valid iff the receiver's packet counter equals the
+                    // counter the PDU was encrypted with (data PDU k of the central uses counter k - 1)
+                    if (out == "enc") out = (c_cur.len != 0 && b->rx_counter != c_cur.id - 1) ? "mic" : "ok";
                     if (out == "mic" && c_cur.len == 0) out = "ok";     // empty PDUs carry no MIC
                     const bool garbage_header = out == "crc";
                     const bool garbage_body   = out != "ok";
@@ -153,7 +160,8 @@ int run(const char* script, const char* trace) {
                 t.f("psn", ans.sn).f("pnesn", ans.nesn).f("pid", ans.id).f("plen", ans.len).f("pllid", ans.llid).f("pmd", ans.md).f("pok", ans.ok);
             else
                 t.f("psn", 0).f("pnesn", 0).f("pid", 0).f("plen", 0).f("pllid", 1).f("pmd", 0).f("pok", true);
-            t.f("rxinc", b->rx_counter - rx0).f("txinc", b->tx_counter - tx0).f("locknest", lock_nested).end();
+            t.f("rxinc", b->rx_counter - rx0).f("txinc", b->tx_counter - tx0)
+             .f("pending", b->pending_outgoing_data_available()).f("rxhead", b->next_received().size != 0).f("locknest", lock_nested).end();
         }
         else if (c.op == "r") {
             const std::string pout = c.w.at(0);
